@@ -747,7 +747,34 @@ func (env *SpecEnv) evalNamedCall(name string, x *ast.CallExpr) *Val {
 	case "bcmp":
 		return &Val{T: intT, S: fmt.Sprintf("(bcmp %s %s)", arg(0).S, arg(1).S)}
 	case "hash32":
+		env.eng.hashSym()
 		return &Val{T: types.NewSlice(types.Typ[types.Uint8]), S: "(hash32 " + arg(0).S + ")"}
+	case "wbytes", "wfail":
+		// ghost byte stream / failure flag of a writer (hash.Hash, *bytes.Buffer, io.Writer)
+		w := arg(0)
+		key := (&Frame{eng: env.eng}).writerKey(w)
+		if name == "wfail" {
+			return &Val{T: boolT, S: "(wfail " + key + ")"}
+		}
+		return &Val{T: types.NewSlice(types.Typ[types.Uint8]), S: env.s.stream(key)}
+	case "le64", "le32", "le16", "be64", "be32", "be16":
+		v := arg(0)
+		w := map[string]int{"64": 8, "32": 4, "16": 2}[name[2:]]
+		dec, enc := fmt.Sprintf("dec_%s%d", name[:2], w), fmt.Sprintf("enc_%s%d", name[:2], w)
+		env.eng.codecSyms(dec, enc, w)
+		t := v.S
+		if _, signed := intBits(v.T); signed && isIntType(v.T) && !isUntyped(v.T) {
+			t = fmt.Sprintf("(mod %s %s)", v.S, pow2(8*w))
+		}
+		return &Val{T: types.NewSlice(types.Typ[types.Uint8]), S: fmt.Sprintf("(%s %s)", enc, t)}
+	case "unle64", "unle32", "unle16", "unbe64", "unbe32", "unbe16":
+		v := arg(0)
+		w := map[string]int{"64": 8, "32": 4, "16": 2}[name[4:]]
+		dec, enc := fmt.Sprintf("dec_%s%d", name[2:4], w), fmt.Sprintf("enc_%s%d", name[2:4], w)
+		env.eng.codecSyms(dec, enc, w)
+		return &Val{T: intT, S: fmt.Sprintf("(%s %s)", dec, v.S)}
+	case "bytes1":
+		return &Val{T: types.NewSlice(types.Typ[types.Uint8]), S: "(seq.unit " + arg(0).S + ")"}
 	case "in":
 		// in(k, m): key membership
 		k, m := arg(0), arg(1)
@@ -809,6 +836,27 @@ func (env *SpecEnv) evalNamedCall(name string, x *ast.CallExpr) *Val {
 	case "off":
 		return &Val{T: intT, S: "(sl_off " + arg(0).S + ")"}
 	}
+	// uninterpreted specification functions: ufBool_x / ufInt_x / ufBytes_x (declared on demand)
+	for pfx, rs := range map[string]string{"ufBool_": "Bool", "ufInt_": "Int", "ufBytes_": "(Seq Int)"} {
+		if strings.HasPrefix(name, pfx) {
+			var as, sorts []string
+			for i := range x.Args {
+				v := arg(i)
+				as = append(as, v.S)
+				sorts = append(sorts, env.eng.sortOf(v.T))
+			}
+			if _, ok := env.eng.syms.syms[name]; !ok {
+				env.eng.syms.add(name, fmt.Sprintf("(declare-fun %s (%s) %s)", name, strings.Join(sorts, " "), rs))
+			}
+			rt := types.Type(boolT)
+			if rs == "Int" {
+				rt = intT
+			} else if rs != "Bool" {
+				rt = types.NewSlice(types.Typ[types.Uint8])
+			}
+			return &Val{T: rt, S: app(name, as...)}
+		}
+	}
 	// conversion to a basic / local named type
 	if o := types.Universe.Lookup(name); o != nil {
 		if tn, ok := o.(*types.TypeName); ok && len(x.Args) == 1 {
@@ -837,13 +885,21 @@ func (env *SpecEnv) applyPred(p *Pred, args []ast.Expr) *Val {
 	if len(args) != len(p.Params) {
 		return env.fail("pred %s: arity", p.Name)
 	}
+	var vals []*Val
+	for i := range p.Params {
+		vals = append(vals, env.evalGo(args[i]))
+	}
+	return env.applyPredVals(p, vals)
+}
+
+func (env *SpecEnv) applyPredVals(p *Pred, vals []*Val) *Val {
 	names := map[string]*Val{}
 	ppkg := env.pkg
 	if pp := env.eng.pkgs[p.Pkg]; pp != nil {
 		ppkg = pp.Types
 	}
 	for i, b := range p.Params {
-		v := env.evalGo(args[i])
+		v := vals[i]
 		t, err := env.eng.resolveType(b.Type, ppkg)
 		if err != nil {
 			return env.fail("pred %s: %v", p.Name, err)
@@ -944,7 +1000,7 @@ func (e *Engine) contractNames(c *Contract, f *types.Func, recv *Val, args []*Va
 			n = c.Params[i]
 		}
 		if n != "" && n != "_" {
-			names[n] = &Val{T: sig.Params().At(i).Type(), S: args[i].S, Const: args[i].Const, Fn: args[i].Fn}
+			names[n] = &Val{T: sig.Params().At(i).Type(), S: args[i].S, Const: args[i].Const, Fn: args[i].Fn, Dyn: args[i].Dyn}
 		}
 		names[fmt.Sprintf("arg%d", i)] = args[i]
 	}
